@@ -244,6 +244,16 @@ def judge (args : List String) (out : String) : String :=
        if ((Wire.hexToBytes hex).getD []).any (· > 122) then "holds:outside-domain-suffix-byte" else "violates:panic"
      | _ => "violates:panic") else
   match args with
+  | ["wdmg", _, _] =>
+    -- a day whose metadata cannot be decoded: every further write is refused with an error and the
+    -- damaged file is left as it is (nothing acknowledged earlier is replaced behind the error)
+    (match o with
+     | [rs, st] =>
+       if (Wire.listField rs).contains "panic" then "violates:panic"
+       else if (Wire.listField rs).contains "ok" then "violates:write-accepted-on-undecodable-day"
+       else if st != "unchanged" then "violates:damaged-metadata-replaced"
+       else "holds"
+     | _ => "violates:unparsable")
   | ["rt", m] =>
     match parseMeta m with
     | none => "violates:unparsable-case"
